@@ -80,7 +80,7 @@ def run(ctx):
                              for i, b in enumerate(forms["bounds"]) if b != "?" and "cntb" not in b and "lst" not in b))
     cases, g2 = fc.gen(ctx, with_mutants=False)
     cases = [c for c in cases if not c["schema"]["aux"]]
-    cases = cases[:3] if ctx.quick else cases[::6][:12]
+    cases = fc.stratify(cases)[:6] if ctx.quick else fc.stratify(cases, 2)
     wd = os.path.join(ctx.work, "s")
     shutil.rmtree(wd, ignore_errors=True)
     root = mkdir(os.path.join(wd, "root"))
